@@ -557,13 +557,12 @@ def penDlgs (unit : Int) (pens : List (Addr × Int)) : List Dlg → Int → Int 
       if take > 0 then
         let nt := x.token - take
         let ns := nt / unit
-        let delta := x.stake - ns
-        let (l, p', tok', stk') := penDlgs unit pens rest (p - take) (tok - take) (stk - delta)
+        let r := penDlgs unit pens rest (p - take) (tok - take) (stk - (x.stake - ns))
         let x' : Dlg := ⟨x.d, nt, ns⟩
-        ((if x'.empty then l else x' :: l), p', tok', stk')
+        ((if x'.empty then r.1 else x' :: r.1), r.2)
       else
-        let (l, p', tok', stk') := penDlgs unit pens rest p tok stk
-        (x :: l, p', tok', stk')
+        let r := penDlgs unit pens rest p tok stk
+        (x :: r.1, r.2)
 
 /-- `updateCounter` on the validator's own part: new (selfToken, selfStake, token, stake) -/
 def penSelf (u : Int) (val : Val) (take : Int) : Int × Int × Int × Int :=
